@@ -66,6 +66,12 @@ func (f *CSVFormatter) writeValue(s string) {
 }
 
 func (f *CSVFormatter) prepareLine(line interface{}) map[string]interface{} {
+	// A result can contain nil nodes, such as the name of an individual that
+	// does not have a name. That is a line without any values.
+	if gedcom.IsNil(line) {
+		return nil
+	}
+
 	if m, ok := line.(gedcom.ObjectMapper); ok {
 		return m.ObjectMap()
 	}
